@@ -5,6 +5,7 @@ from pyvc.contracts_api import REG, C, RaiseSpec, LoopSpec
 from pyvc.dsl import And, Or, Not, Implies, If, Eq, IsNone, AllIdx, AnyIdx
 from pyvc.vtypes import Real, Int, Bool, Id, Ref, Opt, Seq, Tup, Mat, Map, IdSort, RefSort
 from pyvc import heaplib as H
+from pyvc import vtypes as ty
 from .events import qinv, bag, bag_same_except, TSA, P
 from .network import net_wf, occ, station_known
 from .feasibility import net_shapes
@@ -409,6 +410,7 @@ def pilots_step(head, end, invoked):
     cell = z3.If(in_block, z3.If(z3.Select(m._v.dom, sidp), sched_val_at(m, sidp, j - t), z3.RealVal(0)), z3.If(j < P0.cols, P0[p, j], z3.RealVal(0)))
     out.append(("C04.with_an_invocation_the_matrix_is_the_old_one_overlaid_with_the_submitted_schedule",
                 Implies(And(invoked, m.keys.len > 0), FA([p, j], z3.Implies(z3.And(in_net, j >= 0, j < P1.cols), P1[p, j] == cell)))))
+    out.append(("C04.matrix_covers_the_submitted_schedule", Implies(And(invoked, m.keys.len > 0), P1.cols >= t + L)))
     out.append(("C04.an_empty_schedule_changes_no_recorded_pilot",
                 Implies(And(invoked, m.keys.len == 0), FA([p, j], z3.Implies(z3.And(in_net, j >= 0, j < P1.cols), P1[p, j] == z3.If(j < P0.cols, P0[p, j], z3.RealVal(0)))))))
     return out
@@ -509,6 +511,10 @@ REG.contract(
         ("ends_one_period_after_last_event", Implies(new.self._iteration > old.self._iteration, And(
             new.self.event_history.len > 0,
             new.self.event_history[new.self.event_history.len - 1].timestamp == new.self._iteration - 1))),
+        # every occupant has its Unplug pending (lifecycle invariant) and nothing is pending any more: nobody is connected
+        ("every_station_is_vacated_at_the_end", FA([z3.Const("vk!rp", IdSort)], z3.Implies(
+            z3.Select(new.self.network._EVSEs._v.dom, z3.Const("vk!rp", IdSort)), _occ_at(new, new.self.network, z3.Const("vk!rp", IdSort)) == 0),
+            patterns=[z3.Select(new.self.network._EVSEs._v.arrs[0], z3.Const("vk!rp", IdSort))])),
     ], props=("C01", "C09"))],
     loops={
         0: LoopSpec(invariant=run_inv, step=run_step,
@@ -816,3 +822,104 @@ REG.contract(
     ensures=[C("C02.store", _store_post, props=("C02",))],
 )
 REG.contract(N_ + "post_charging_update", params=dict(self=Ref("ChargingNetwork", exact=True)), modifies=[], ensures=[])
+
+
+# ============================================================================ whole-run closed forms by induction over the periods (C04 / C02)
+# The run loop's step contract (pilots_step / ledger_step above) is proved for one arbitrary iteration from the inductive invariant.  The lemmas below
+# are the induction that turns those per-period clauses into the closed statements about a whole run.  Their hypotheses restate the step clauses
+# (named in each lemma) over plain arrays; `_step_clauses_exist` keeps the two texts tied together: if a clause a lemma leans on disappears from the
+# step contract, the lemma reports an undischargeable obligation instead of silently proving a statement about nothing.
+_AII = z3.ArraySort(z3.IntSort(), z3.ArraySort(z3.IntSort(), z3.RealSort()))
+
+
+def _step_clauses_exist(*tags):
+    import inspect
+    src = inspect.getsource(pilots_step) + inspect.getsource(ledger_step) + inspect.getsource(run_step)
+    return z3.BoolVal(all(('"' + t + '"') in src for t in tags))
+
+
+def _overlay_induction():
+    """OV_k(p, j): the pilot the first k submitted schedules assign to station p in period j - the value of the LATEST schedule that covers j, 0 for a
+    station it omits, 0 if none covers j.  OV_{k+1} = the new schedule's value inside its block [t, t+L), OV_k elsewhere.  Closed form: every recorded
+    cell equals OV_k and OV_k is 0 beyond the recorded width."""
+    P0, P1, OV0, OV1, VAL = (z3.Const(n_, _AII) for n_ in ("ovl_P0", "ovl_P1", "ovl_OVk", "ovl_OVk1", "ovl_val"))
+    HAS = z3.Const("ovl_has", z3.ArraySort(z3.IntSort(), z3.BoolSort()))
+    n, c0, c1, t, L, p, j = z3.Ints("ovl_n ovl_c0 ovl_c1 ovl_t ovl_L ovl_p ovl_j")
+    invoked, nonempty = z3.Bools("ovl_invoked ovl_nonempty")
+    cellf = lambda A_, pp, jj: ty.sel(A_, pp, jj)
+    inn = z3.And(p >= 0, p < n)
+    closed0 = FA([p, j], z3.Implies(z3.And(inn, j >= 0, j < c0), cellf(P0, p, j) == cellf(OV0, p, j)))
+    tail0 = FA([p, j], z3.Implies(z3.And(inn, j >= c0), cellf(OV0, p, j) == 0))
+    in_block = z3.And(j >= t, j < t + L)
+    old_or_zero = z3.If(j < c0, cellf(P0, p, j), z3.RealVal(0))
+    new_cell = z3.If(in_block, z3.If(z3.Select(HAS, p), cellf(VAL, p, j - t), z3.RealVal(0)), old_or_zero)
+    step = [  # the three C04 clauses of pilots_step, verbatim in shape
+        z3.Implies(z3.Not(invoked), FA([p, j], z3.Implies(z3.And(inn, j >= 0, j < c1), cellf(P1, p, j) == old_or_zero))),
+        z3.Implies(z3.And(invoked, nonempty), FA([p, j], z3.Implies(z3.And(inn, j >= 0, j < c1), cellf(P1, p, j) == new_cell))),
+        z3.Implies(z3.And(invoked, z3.Not(nonempty)), FA([p, j], z3.Implies(z3.And(inn, j >= 0, j < c1), cellf(P1, p, j) == old_or_zero))),
+        z3.And(c1 >= c0, c1 > t, z3.Implies(z3.And(invoked, nonempty), c1 >= t + L)),
+    ]
+    unfold = FA([p, j], cellf(OV1, p, j) == z3.If(z3.And(invoked, nonempty, in_block), z3.If(z3.Select(HAS, p), cellf(VAL, p, j - t), z3.RealVal(0)), cellf(OV0, p, j)))
+    tied = _step_clauses_exist("C04.without_an_invocation_recorded_pilots_stay_and_new_columns_are_zero",
+                               "C04.with_an_invocation_the_matrix_is_the_old_one_overlaid_with_the_submitted_schedule",
+                               "C04.an_empty_schedule_changes_no_recorded_pilot", "C04.matrix_covers_the_period_and_never_shrinks",
+                               "C04.matrix_covers_the_submitted_schedule")
+    hy = [closed0, tail0, unfold, t >= 0, L >= 1, c0 >= 1, n >= 0] + step
+    return [
+        ("step_clauses_named_here_are_clauses_of_the_run_loop", [], tied),
+        ("base.a_fresh_matrix_of_zeros_is_the_overlay_of_no_schedule",
+         [FA([p, j], cellf(P0, p, j) == 0), FA([p, j], cellf(OV0, p, j) == 0)], z3.And(closed0, tail0)),
+        ("step.every_recorded_cell_is_the_overlay_of_all_schedules_submitted_so_far", hy,
+         FA([p, j], z3.Implies(z3.And(inn, j >= 0, j < c1), cellf(P1, p, j) == cellf(OV1, p, j)))),
+        ("step.periods_beyond_the_recorded_width_are_covered_by_no_schedule", hy, FA([p, j], z3.Implies(z3.And(inn, j >= c1), cellf(OV1, p, j) == 0))),
+        ("step.a_later_schedule_never_rewrites_a_past_period", hy, FA([p, j], z3.Implies(z3.And(inn, j >= 0, j < t), cellf(OV1, p, j) == cellf(OV0, p, j)))),
+        ("applied.the_pilot_a_station_holds_in_period_t_is_the_overlay_value",
+         hy + [FA([p], z3.Implies(inn, z3.Select(z3.Const("ovl_pilot", z3.ArraySort(z3.IntSort(), z3.RealSort())), p) == cellf(P1, p, t)))],
+         FA([p], z3.Implies(inn, z3.Select(z3.Const("ovl_pilot", z3.ArraySort(z3.IntSort(), z3.RealSort())), p) == cellf(OV1, p, t)))),
+    ]
+
+
+REG.lemma("C04.recorded_and_applied_pilots_are_the_overlay_of_all_submitted_schedules", _overlay_induction, props=("C04",))
+
+
+def _ledger_induction():
+    """closed sums of the energy ledger for one station row / one session, by induction over the periods:
+       E_t = E_0 + sum_{tau < t, connected} rate[tau] * V/1000 * period/60 ;  a vacant period records 0 ;  peak_t = max(0, max_{tau<t} aggregate[tau])"""
+    from pyvc.nplib import SUM
+    AR = z3.ArraySort(z3.IntSort(), z3.RealSort())
+    r0, r1, conn0, agg0, agg1 = (z3.Const(n_, AR) for n_ in ("led_r0", "led_r1", "led_g0", "led_agg0", "led_agg1"))
+    CONN = z3.Const("led_conn", z3.ArraySort(z3.IntSort(), z3.BoolSort()))       # the session is connected in period tau
+    t, j = z3.Ints("led_t led_j")
+    E0, E1, Ein, V, per, peak0, peak1 = z3.Reals("led_E0 led_E1 led_Ein led_V led_per led_peak0 led_peak1")
+    kwh_ = lambda r: r * V / 1000 * (per / 60)
+    g0 = z3.Lambda([j], z3.If(z3.Select(CONN, j), kwh_(z3.Select(r0, j)), z3.RealVal(0)))
+    g1 = z3.Lambda([j], z3.If(z3.Select(CONN, j), kwh_(z3.Select(r1, j)), z3.RealVal(0)))
+    untouched = FA([j], z3.Implies(z3.And(j >= 0, j < t), z3.Select(r1, j) == z3.Select(r0, j)))     # C02.earlier_columns_untouched (row of one station)
+    gained = z3.If(z3.Select(CONN, t), E1 == E0 + kwh_(z3.Select(r1, t)), E1 == E0)                  # C02.energy_gained_... / C02.unconnected_sessions_gain_nothing
+    closed0 = E0 == Ein + SUM(g0, t)
+    tied = _step_clauses_exist("C02.energy_gained_is_recorded_rate_times_voltage_times_period", "C02.unconnected_sessions_gain_nothing",
+                               "C02.earlier_columns_untouched", "C02.vacant_station_records_zero",
+                               "C02.peak_is_the_running_maximum_of_the_aggregate_current")
+    same_prefix = FA([j], z3.Implies(z3.And(j >= 0, j < t), z3.Select(g1, j) == z3.Select(g0, j)))
+    # running maximum
+    m0, m1 = z3.Reals("led_m0 led_m1")
+    pk_closed0 = z3.And(peak0 >= 0, FA([j], z3.Implies(z3.And(j >= 0, j < t), peak0 >= z3.Select(agg0, j))),
+                        z3.Or(peak0 == 0, z3.Exists([j], z3.And(j >= 0, j < t, peak0 == z3.Select(agg0, j)))))
+    pk_step = z3.And(peak1 == z3.If(peak0 >= z3.Select(agg1, t), peak0, z3.Select(agg1, t)),
+                     FA([j], z3.Implies(z3.And(j >= 0, j < t), z3.Select(agg1, j) == z3.Select(agg0, j))))
+    w = z3.Int("led_w")
+    return [
+        ("step_clauses_named_here_are_clauses_of_the_run_loop", [], tied),
+        ("base.before_the_first_period_nothing_is_delivered", [t == 0, E0 == Ein], closed0),
+        ("step.summands_of_earlier_periods_are_unchanged", [untouched, t >= 0], same_prefix),
+        ("step.delivered_energy_is_the_sum_over_connected_periods_of_rate_times_voltage_times_period",
+         [closed0, untouched, same_prefix, gained, t >= 0, SUM(g1, t) == SUM(g0, t)], E1 == Ein + SUM(g1, t + 1)),
+        ("step.sum_congruence_instance", [same_prefix, t >= 0], SUM(g1, t) == SUM(g0, t)),
+        ("step.peak_dominates_every_recorded_aggregate_current", [pk_closed0, pk_step, t >= 0],
+         z3.And(peak1 >= 0, FA([j], z3.Implies(z3.And(j >= 0, j <= t), peak1 >= z3.Select(agg1, j))))),
+        ("step.peak_is_attained_or_zero", [pk_closed0, pk_step, t >= 0, z3.Implies(z3.And(peak0 != 0, peak0 >= z3.Select(agg1, t)), z3.And(w >= 0, w < t, peak0 == z3.Select(agg0, w)))],
+         z3.Or(peak1 == 0, peak1 == z3.Select(agg1, t), z3.And(w >= 0, w < t, peak1 == z3.Select(agg1, w)))),
+    ]
+
+
+REG.lemma("C02.whole_run_ledger_sums_follow_from_the_per_period_clauses", _ledger_induction, props=("C02",))
